@@ -29,8 +29,8 @@ INV17 = "TypeOK IndexConsistent CounterExact BookkeepingEmpty NoEntryForDeadPeer
 
 def op(s):
     p = s.split()
-    if p[0] == "disc":
-        return {"op": "disc", "a": p[1], "p": p[2]}
+    if p[0] in ("disc", "burn"):
+        return {"op": p[0], "a": p[1], "p": p[2]}
     return {"op": p[0], "t": int(p[1])}
 
 
@@ -97,32 +97,15 @@ def run(ctx):
             cex[name] = (site, variant, path)
             jobs.append(R.job(name, site_cfg[site]["topo"], variant, paths=[path], patience_ms=3000))
     for (topo, variant, c), r in zip(rel_specs, rels):
-        jobs.append(R.job("rel_%s_%s" % (topo, variant), topo, variant, edges=r.edges, ntun=c.get("ntun", 2)))
-    out = R.replay(ctx, jobs)
-    reproduced = {}
-    for name, (site, variant, path) in cex.items():
-        o = out.pop(name)
-        if any(m.get("infra") for m in o["mismatches"]):
-            raise vf.Infra("counterexample replay %s could not be driven: %s" % (name, o["mismatches"][0]["diff"]))
-        reproduced[name] = not o["mismatches"]
-        if not o["mismatches"]:
-            t = path["steps"][-1]["t"]
-            left = {a: (len(t["rup"][a]), len(t["rdn"][a]), len(t["xc"][a]), t["xcnt"][a]) for a in t["rup"]
-                    if t["rup"][a] or t["rdn"][a] or t["xc"][a] or t["xcnt"][a]}
-            ctx.finding("Relay:DevKeyedByStreamIdOnly:" + R.SITE_KEY[(site, variant)],
-                        "real agents follow the TLC counterexample of bare-stream-id keying at the %s (%s, %s): after %d steps every "
-                        "tunnel is gone and the links are quiet, yet (relay up, relay down, exit records, exit counter) = %s"
-                        % (site, site_cfg[site]["topo"], variant, len(path["steps"]), left),
-                        {"site": site, "variant": variant, "actions": [s["a"] for s in path["steps"]]})
-    nmis = R.report_replay(ctx, out)
-
+        jobs.append(R.job("rel_%s_%s" % (topo, variant), topo, variant, edges=r.edges, ntun=c.get("ntun", 2),
+                          burn=[("T", "X")] if topo in ("fanin", "chain") else ()))
     # ---- operation-level histories ------------------------------------------------------------------------------------
     hist = {
         "chain-disc-ingress": ("chain", ["open 1", "send 1", "open 2", "disc A T"]),
         "chain-disc-exit": ("chain", ["open 1", "open 2", "send 2", "disc T X"]),
         # both neighbours of the transit vanish: nobody is left to send a close, only the disconnect handling can clean up
         "chain-disc-both": ("chain", ["open 1", "send 1", "open 2", "disc A T", "disc T X"]),
-        "chain-mixed": ("chain", ["open 1", "failopen 2", "send 1", "rsend 1", "reset 1"]),
+        "chain-mixed": ("chain", ["burn T X", "open 1", "failopen 2", "send 1", "rsend 1", "reset 1"]),
         "fanin-collide-disc": ("fanin", ["open 1", "open 2", "close 1", "close 2", "disc A T", "disc B T"]),
         "vee-collide": ("vee", ["open 1", "open 2", "close 1", "close 2"]),
         "star-collide": ("star", ["open 1", "open 2", "tclose 1", "close 2"]),
@@ -144,9 +127,25 @@ def run(ctx):
     if not q:
         import C16
         scs += [dict(s, idle_ms=200, no_leak=False) for s in C16.sim_scenarios(ctx, n=30, depth=30)]
-    recs = R.run_scenarios(ctx, scs)
+    out, recs, icmp = R.run_all(ctx, jobs, scs)
+    reproduced = {}
+    for name, (site, variant, path) in cex.items():
+        o = out.pop(name)
+        if any(m.get("infra") for m in o["mismatches"]):
+            raise vf.Infra("counterexample replay %s could not be driven: %s" % (name, o["mismatches"][0]["diff"]))
+        reproduced[name] = not o["mismatches"]
+        if not o["mismatches"]:
+            t = path["steps"][-1]["t"]
+            left = {a: (len(t["rup"][a]), len(t["rdn"][a]), len(t["xc"][a]), t["xcnt"][a]) for a in t["rup"]
+                    if t["rup"][a] or t["rdn"][a] or t["xc"][a] or t["xcnt"][a]}
+            ctx.finding("Relay:DevKeyedByStreamIdOnly:" + R.SITE_KEY[(site, variant)],
+                        "real agents follow the TLC counterexample of bare-stream-id keying at the %s (%s, %s): after %d steps every "
+                        "tunnel is gone and the links are quiet, yet (relay up, relay down, exit records, exit counter) = %s"
+                        % (site, site_cfg[site]["topo"], variant, len(path["steps"]), left),
+                        {"site": site, "variant": variant, "actions": [s["a"] for s in path["steps"]]})
+    nmis = R.report_replay(ctx, out)
+
     nfail = R.report_scenarios(ctx, recs, R.C17_KINDS)
-    icmp = R.run_icmp(ctx)
     nfail += R.report_icmp(ctx, icmp, R.C17_KINDS)
 
     rel_paths = sum(o["paths"] for o in out.values())
